@@ -162,7 +162,7 @@ class Ctx:
 
 
 # ---------------------------------------------------------------------------------------------- RVint
-def check_rv(cx, u, box, dt, pos, vel, where):
+def check_rv(cx, u, box, dt, pos, vel, where, scale_eps=None):
     """compare decoded pos/vel (either may be None) of the uint32 words u (N,3) with the reference tables"""
     ptab, vtab = tables(box)
     t = DT(dt)
@@ -174,7 +174,7 @@ def check_rv(cx, u, box, dt, pos, vel, where):
             e64 = ptab[u >> np.uint32(12)]
             if not np.array_equal(pos, e64.astype(t)):
                 d = np.abs(pos.astype(np.float64) - e64)
-                bad = ~(d <= POS_ULPS * np.finfo(t).eps * np.abs(e64))
+                bad = ~(d <= POS_ULPS * max(np.finfo(t).eps, scale_eps or 0.0) * np.abs(e64))
                 for c in range(3):
                     if bad[:, c].any():
                         i = int(np.argmax(bad[:, c]))
@@ -373,7 +373,8 @@ def run_rvmisc(case, cx, bp):
         for box in (2000, np.float32(1185.0), np.float64(32.0), np.int64(1)):
             p, v = bp.unpack_rvint(w, box, float_dtype=t)
             cx.calls += 1
-            check_rv(cx, u, float(box), dt, p, v, f'misc Box={box!r} ({type(box).__name__}) {dt}')
+            # (a BoxSize handed over as a float32 scalar carries float32 precision into the scale factor)
+            check_rv(cx, u, float(box), dt, p, v, f'misc Box={box!r} ({type(box).__name__}) {dt}', scale_eps=float(np.finfo(np.float32).eps) if isinstance(box, np.float32) else None)
             cx.nt.append(f'rvmisc:boxtype:{type(box).__name__}:{dt}')
         # flat int32 input, non-contiguous input, N = 0, 1
         variants = dict(flat=(w.reshape(-1), u), strided=(np.ascontiguousarray(np.repeat(w, 2, axis=0))[::2], u),
